@@ -174,6 +174,9 @@ def run(pid, tier):
     deadline = t0 + budget
     known = load_known()
     scs = prop.subchecks(tier)
+    if os.environ.get("VERIF_ONLY_SUBCHECKS") and os.environ.get("VERIF_OUT"):
+        # probing aid (seed evaluation against scratch trees): run a subset of the sub-checks; never used by registered commands
+        scs = [s for s in scs if s.name in os.environ["VERIF_ONLY_SUBCHECKS"].split(",")]
 
     # 1. pinned replays first: fixed findings are regressions (must pass), known findings must still fail as recorded
     violations_out = []
